@@ -181,7 +181,21 @@ func runBook(t *testing.T, evs []bookEv) (res bookResult) {
 			}
 		}
 		sort.Strings(ms)
-		res.Key = strings.Join(ms, ",") + "|" + strings.Join(bs, ",")
+		// the implementation's own ban table is part of the state (an entry that has expired but
+		// was never removed is a different state from no entry)
+		var ib []string
+		for h, u := range b.Banned() {
+			left := time.Until(u)
+			bucket := "expired"
+			if left > banDur/2 {
+				bucket = "full"
+			} else if left > 0 {
+				bucket = "half"
+			}
+			ib = append(ib, h+":"+bucket)
+		}
+		sort.Strings(ib)
+		res.Key = strings.Join(ms, ",") + "|" + strings.Join(bs, ",") + "|impl:" + strings.Join(ib, ",")
 		res.Peers = peers
 	})
 	return res
